@@ -46,6 +46,8 @@ var scGuards = guardTable{
 }
 
 func runC08(r *engine.Run) {
+	r.Rule("COPY-lock", "every method of a struct of core/statecache that holds a mutex has a pointer receiver: a value receiver copies the struct (mutex, map header, counters) on every call without a lock - a data race with every committer and reader of that cache")
+	r.Rule("LOCK-ring", "see C20: lookups and commits of the state cache log through the in-memory core, from many goroutines at once; the ring cursor and slots are written only under the core's mutex in write mode")
 	r.Rule("LOCK-statecache", "guarded-by discipline over every function reachable from the exported methods of StateCache/BlockCache/TransactionCache/QueryBlockCache: plain maps and rewritable fields are accessed only with their owner's mutex held in the required mode (interprocedural must-lockset), counters updated through sync/atomic are never accessed plainly, constructor-only fields are never written afterwards; constructor contexts (object allocated in the same function) are exempt")
 	r.Rule("LOCK-commit", "every write into the key->versions map, a per-key versions map or the block-link map that is reachable from StateCache.commit happens with StateCache.lock held")
 	r.Rule("DOM-recheck", "the lock-free ancestor walk of StateCache.Get never overwrites an entry of the queried block: it memoises with an add-if-absent operation (no plain Add on the per-key map), and a lookup of the queried block's own entry that can only execute after the link lookup dominates the memoisation (a commit publishes a block's link after its keys, so an entry written meanwhile is seen by that re-check)")
@@ -121,6 +123,8 @@ func runC08(r *engine.Run) {
 	depWalk(r)
 	keySame(r)
 	whoLayers(r)
+	copyLock(r, "COPY-lock", pkgSC)
+	checkGuards(r, "LOCK-ring", exportedEntries(r, "LOCK-ring", pkgLog, map[string]bool{"MemCore": true, "MemLogger": true}), logOwners, logGuards)
 }
 
 func orderPublish(r *engine.Run, commit *ssa.Function) {
